@@ -486,6 +486,51 @@ def gen_reqresp(rng, mode=None):
     return build_case(cfg, body, "reqresp-" + cfg["mode"])
 
 
+def gen_halfclose(rng, mode=None):
+    """Owned split and half-close: one side splits, writes, shuts its write half down and then
+    drops that half (or only shuts down / only drops); the peer keeps writing afterwards and
+    finally shuts down; the first side's read half keeps reading to EOF."""
+    cfg = base_cfg(rng, mode)
+    c, s = hosts_of(cfg)
+    remote = cfg["mode"] == "remote"
+    by = Bytes()
+    held = remote and rng.random() < 0.7
+    x_host, x_sid, y_host, y_sid = (c, CLIENT_SID, s, SERVER_SID) if rng.random() < 0.5 else (s, SERVER_SID, c, CLIENT_SID)
+    body = []
+    xs = []
+    if rng.random() < 0.8:
+        xs.append(["split", x_sid])
+    for _ in range(rng.choice([0, 1, 2])):
+        xs.append(["try_write", x_sid, by.take(rng.choice([1, 2, 3]))])
+    closing = rng.choice([["shutdown", "drop_w"], ["shutdown", "drop_w"], ["shutdown"], ["drop_w"]])
+    xs.append([closing[0], x_sid])
+    body.append({"ctl": [["hold", c, s]] if held else [], "hosts": {str(x_host): xs}})
+    t_second = rng.choice([1, 2, 3])
+    rn = rng.choice([1, 3, 64])
+    nw = rng.randrange(2, 6)
+    for t in range(1, nw + 3):
+        hosts = {}
+        if t == t_second and len(closing) > 1:
+            hosts.setdefault(str(x_host), []).append([closing[1], x_sid])
+        if t <= nw:
+            hosts.setdefault(str(y_host), []).append(["try_write", y_sid, by.take(rng.choice([1, 2, 4]))])
+            if rng.random() < 0.4:
+                hosts[str(y_host)].append(["read", y_sid, rn])
+        elif t == nw + 1:
+            hosts.setdefault(str(y_host), []).append(rng.choice([["shutdown", y_sid], ["drop_w", y_sid]]))
+        if rng.random() < 0.6:
+            hosts.setdefault(str(x_host), []).append(rng.choice([["read", x_sid, rn], ["peek", x_sid, 64]]))
+        ctl = [["deliver", c, s, rng.choice([0, 0, 1])] for _ in range(rng.choice([0, 1, 2]))] if held else []
+        body.append({"ctl": ctl, "hosts": hosts})
+    for t in range(nw + 8):
+        ctl = [["deliver", c, s, 0]] if held else []
+        body.append({"ctl": ctl, "hosts": {str(x_host): [["read", x_sid, rn]] * 2, str(y_host): [["read", y_sid, 64]]}})
+    for t in range(8):
+        body.append({"ctl": [["deliver", c, s, 0]] if held else [],
+                     "hosts": {str(x_host): [["read", x_sid, rn]] * 2, str(y_host): [["read", y_sid, 64]]}})
+    return build_case(cfg, body, "halfclose-" + cfg["mode"])
+
+
 def gen_parked(rng, mode=None):
     """The writer fills the receiver's channel (tcp_capacity unread data segments) and closes;
     everything is delivered while the reader is idle, so the FIN is parked in the reorder
